@@ -37,7 +37,7 @@ def handle_kernel(chk, it):
     st = State()
     state, sterms = B.sym_state(st.pc)
     B.install_coin_invariants(it, B.cdh_covhash)
-    tx, tt = B.sym_tx('tx', 1, 1, 1, st.pc, kind='Faucet')
+    tx, tt = B.sym_tx('tx', 1, 1, 1, st.pc, kind='Faucet', n_sigs=1)  # one arbitrary signature: re-signing must not make a new faucet
     cell = st.alloc(state)
     txc = st.alloc(tx)
     fn = it.by_last['handle_faucet_tx'][0]
@@ -171,12 +171,17 @@ def replay(chk, model, inputs, twice_in_batch=False):
     sc['txs'].append({'name': 'b', 'kind': 0, 'inputs': [{'txhash': {'txhash_of': 'a'}, 'index': 0}],
                       'outputs': [{'covhash': {'covhash_of': 'true'}, 'value': '1000', 'denom': 'MEL', 'adata': '01'}], 'fee': '0',
                       'covenants': ['true'], 'data': ''})
+    # c is a again with another `sigs` field: the same transaction (hash_nosigs), hence the same faucet
+    sc['txs'].append(dict(sc['txs'][0], name='c', sigs=['78']))
+    sc['steps'] += [[2]]
     out = harness.run_replay([sc], 'dev')[0]
     if 'error' in out or 'unrealizable' in out:
         raise Inconclusive('replay: %s' % out)
     steps = out['steps']
     same_batch = out['runs'][0]
     why = []
+    if net != 0xff and steps[-1].get('result') == 'Ok':
+        why.append('a re-signed copy of an applied faucet was accepted again')
     if net == 0xff:
         if steps[0].get('result') == 'Ok':
             why.append('mainnet accepted a faucet')
